@@ -325,10 +325,13 @@ func genAtom(rng *rand.Rand) *QExpr {
 	switch typ {
 	case "num":
 		if rng.Intn(4) == 0 {
-			n := 1 + rng.Intn(3)
+			n := 1 + rng.Intn(4)
 			items := make([]QLit, n)
 			for i := range items {
 				items[i] = numLit()
+				if rng.Intn(3) == 0 { // lists may mix numbers and strings: membership is decided element by element
+					items[i] = strLit()
+				}
 			}
 			return &QExpr{Kind: []string{"IN", "NI"}[rng.Intn(2)], Path: f.path, Items: items}
 		}
@@ -337,10 +340,13 @@ func genAtom(rng *rand.Rand) *QExpr {
 	case "str":
 		switch rng.Intn(4) {
 		case 0:
-			n := 1 + rng.Intn(3)
+			n := 1 + rng.Intn(4)
 			items := make([]QLit, n)
 			for i := range items {
 				items[i] = strLit()
+				if rng.Intn(3) == 0 {
+					items[i] = numLit()
+				}
 			}
 			return &QExpr{Kind: []string{"IN", "NI"}[rng.Intn(2)], Path: f.path, Items: items}
 		case 1:
